@@ -483,6 +483,10 @@ var (
 		Name: Name{Name: "int16"},
 		Kind: Builtin,
 	}
+	Int8 = &Type{
+		Name: Name{Name: "int8"},
+		Kind: Builtin,
+	}
 	Int = &Type{
 		Name: Name{Name: "int"},
 		Kind: Builtin,
@@ -537,7 +541,7 @@ var (
 			"int64":   Int64,
 			"int32":   Int32,
 			"int16":   Int16,
-			"int8":    Byte,
+			"int8":    Int8,
 			"uint":    Uint,
 			"uint64":  Uint64,
 			"uint32":  Uint32,
@@ -567,7 +571,7 @@ func PointerTo(t *Type) *Type {
 
 func IsInteger(t *Type) bool {
 	switch t {
-	case Int, Int64, Int32, Int16, Uint, Uint64, Uint32, Uint16, Byte:
+	case Int, Int64, Int32, Int16, Int8, Uint, Uint64, Uint32, Uint16, Byte:
 		return true
 	default:
 		return false
